@@ -11,7 +11,19 @@
  *       each file: memory test + load of the prefixes of length 0..every (each), every..stride_to (step <stride>) and
  *       <spread> further lengths spread evenly up to the file size; prints
  *         swept <file> points=<n> maxcpu=<seconds of the slowest prefix> at=<its length>
- * A SIGALRM (12 s per prefix, 20 s per played file) prints `HANG <file> <length or frame>` and exits 14.
+ *   c02_play meter <file>...                       (build with -DWRAP_METERS and the --wrap options below)
+ *       each file, unmodified: memory test + load + release; prints
+ *         metered <file> load=<ret> cpu=<s> peak=<bytes> held=<bytes> reads=<n> eofreads=<n>
+ *       peak = highest live heap during the call, held = heap still live after xmp_release_module + xmp_free_context,
+ *       reads = calls of the hio read functions made by loaders / depackers, eofreads = those made with the stream
+ *       already at its end ("reads after EOF": work that no byte of the input pays for)
+ *   c02_play fields <full> <file>...
+ *       each file: a 32-bit field of value 0x7fffffff / 0xffffffff (big and little endian) written at every offset
+ *       (files up to <full> bytes: every offset; larger: the first and the last <full>/2 bytes and the 64 bytes behind every
+ *       position a 32-bit value of the first 256 bytes points to), each variant metered:
+ *         fieldswept <file> variants=<n> maxcpu=<s> maxeof=<n> maxpeak=<bytes> at=<offset of the slowest>
+ * A SIGALRM (12 s per prefix / variant, 20 s per played file) prints `HANG <file> <length or frame>` and exits 14;
+ * more than EOF_READ_CAP reads after EOF in one call print `WORK <file> <position> eofreads` and exit 15.
  */
 #include "vcommon.h"
 #include <xmp.h>
@@ -21,6 +33,127 @@
 
 static const char *cur_file = "?";
 static volatile long cur_pos;
+
+#ifdef WRAP_METERS
+/* ---- heap meter (-Wl,--wrap=malloc,--wrap=calloc,--wrap=realloc,--wrap=free) ---- */
+#include <malloc.h>
+void *__real_malloc(size_t);
+void *__real_calloc(size_t, size_t);
+void *__real_realloc(void *, size_t);
+void __real_free(void *);
+static size_t live_bytes, peak_bytes;
+static void heap_acct(size_t n)
+{
+	live_bytes += n;
+	if (live_bytes > peak_bytes)
+		peak_bytes = live_bytes;
+}
+void *__wrap_malloc(size_t n)
+{
+	void *p = __real_malloc(n);
+	if (p) heap_acct(malloc_usable_size(p));
+	return p;
+}
+void *__wrap_calloc(size_t a, size_t b)
+{
+	void *p = __real_calloc(a, b);
+	if (p) heap_acct(malloc_usable_size(p));
+	return p;
+}
+void *__wrap_realloc(void *q, size_t n)
+{
+	size_t old = q ? malloc_usable_size(q) : 0;
+	void *p = __real_realloc(q, n);
+	if (p) {
+		live_bytes -= old < live_bytes ? old : live_bytes;
+		heap_acct(malloc_usable_size(p));
+	}
+	return p;
+}
+void __wrap_free(void *q)
+{
+	if (q) {
+		size_t old = malloc_usable_size(q);
+		live_bytes -= old < live_bytes ? old : live_bytes;
+	}
+	__real_free(q);
+}
+
+/* ---- work meter: the hio read functions as called by loaders and depackers (cross-module calls inside libxmp.a;
+ * -Wl,--wrap=hio_read8,... ) ---- */
+#include "common.h"
+#include "hio.h"
+#define EOF_READ_CAP (48L << 20)
+static long n_reads, n_eof_reads;
+static void work_acct(HIO_HANDLE *h)
+{
+	n_reads++;
+	if (hio_eof(h)) {
+		if (++n_eof_reads > EOF_READ_CAP) {
+			char buf[4400];
+			int n = snprintf(buf, sizeof(buf), "WORK %s %ld eofreads\n", cur_file, (long)cur_pos);
+			if (n > 0 && write(1, buf, (size_t)n) < 0) {
+			}
+			_exit(15);
+		}
+	}
+}
+#define WRAP_RD(ret, name) ret __real_##name(HIO_HANDLE *); ret __wrap_##name(HIO_HANDLE *h) { work_acct(h); return __real_##name(h); }
+WRAP_RD(int8, hio_read8s)
+WRAP_RD(uint8, hio_read8)
+WRAP_RD(uint16, hio_read16l)
+WRAP_RD(uint16, hio_read16b)
+WRAP_RD(uint32, hio_read24l)
+WRAP_RD(uint32, hio_read24b)
+WRAP_RD(uint32, hio_read32l)
+WRAP_RD(uint32, hio_read32b)
+size_t __real_hio_read(void *, size_t, size_t, HIO_HANDLE *);
+size_t __wrap_hio_read(void *b, size_t s, size_t n, HIO_HANDLE *h)
+{
+	work_acct(h);
+	return __real_hio_read(b, s, n, h);
+}
+
+struct meter { int ret; double cpu; size_t peak, held; long reads, eofreads; };
+
+static struct meter metered_load(const unsigned char *in, long n)
+{
+	struct meter m;
+	struct xmp_test_info ti;
+	unsigned char *exact = (unsigned char *)__real_malloc(n > 0 ? n : 1);
+	size_t base = live_bytes;
+	xmp_context c;
+	double t0;
+	memcpy(exact, in, n);
+	peak_bytes = live_bytes;
+	n_reads = n_eof_reads = 0;
+	t0 = 0;
+	{
+		struct timespec ts;
+		clock_gettime(CLOCK_PROCESS_CPUTIME_ID, &ts);
+		t0 = ts.tv_sec + ts.tv_nsec * 1e-9;
+	}
+	alarm(12);
+	xmp_test_module_from_memory(exact, n, &ti);
+	c = xmp_create_context();
+	m.ret = xmp_load_module_from_memory(c, exact, n);
+	if (m.ret == 0)
+		xmp_release_module(c);
+	xmp_free_context(c);
+	alarm(0);
+	{
+		struct timespec ts;
+		clock_gettime(CLOCK_PROCESS_CPUTIME_ID, &ts);
+		m.cpu = ts.tv_sec + ts.tv_nsec * 1e-9 - t0;
+	}
+	m.peak = peak_bytes - base;
+	m.held = live_bytes > base ? live_bytes - base : 0;
+	m.reads = n_reads;
+	m.eofreads = n_eof_reads;
+	__real_free(exact);
+	return m;
+}
+#endif
 
 static void on_alarm(int sig)
 {
@@ -171,6 +304,89 @@ int main(int argc, char **argv)
 		}
 		return 0;
 	}
+#ifdef WRAP_METERS
+	if (argc >= 3 && !strcmp(argv[1], "meter")) {
+		for (i = 2; i < argc; i++) {
+			long n = 0;
+			unsigned char *in = read_all(argv[i], &n);
+			struct meter m;
+			if (!in)
+				continue;
+			cur_file = argv[i];
+			cur_pos = -1;
+			m = metered_load(in, n);
+			printf("metered %s load=%d cpu=%.3f peak=%zu held=%zu reads=%ld eofreads=%ld\n", argv[i], m.ret, m.cpu, m.peak, m.held,
+			       m.reads, m.eofreads);
+			fflush(stdout);
+			free(in);
+		}
+		return 0;
+	}
+	if (argc >= 4 && !strcmp(argv[1], "fields")) {
+		long full = atol(argv[2]);
+		static const unsigned char vals[4][4] = { { 0x7f, 0xff, 0xff, 0xff }, { 0xff, 0xff, 0xff, 0x7f },
+			{ 0xff, 0xff, 0xff, 0xff }, { 0x7f, 0xff, 0xff, 0xfe } };
+		for (i = 3; i < argc; i++) {
+			long n = 0, off, variants = 0, at = -1, maxeof = 0;
+			unsigned char *in = read_all(argv[i], &n);
+			double maxcpu = 0;
+			size_t maxpeak = 0;
+			if (!in)
+				continue;
+			cur_file = argv[i];
+			/* offsets to try: everything for small files; else the first and last full/2 bytes and the 64 bytes behind
+			 * every position a 32-bit value (either byte order) in the first 256 bytes points to (offset-linked formats:
+			 * expansion / extension structures hang off header pointers) */
+			unsigned char *mark = (unsigned char *)calloc(1, n > 0 ? n : 1);
+			for (off = 0; off < n; off++)
+				mark[off] = (n <= full || off < full / 2 || off >= n - full / 2);
+			if (n > full) {
+				for (off = 0; off + 4 <= n && off < 256; off += 2) {
+					unsigned long be = ((unsigned long)in[off] << 24) | (in[off + 1] << 16) | (in[off + 2] << 8) | in[off + 3];
+					unsigned long le = ((unsigned long)in[off + 3] << 24) | (in[off + 2] << 16) | (in[off + 1] << 8) | in[off];
+					unsigned long t[2];
+					int k;
+					long j;
+					t[0] = be;
+					t[1] = le;
+					for (k = 0; k < 2; k++)
+						if (t[k] > 0 && t[k] < (unsigned long)n)
+							for (j = 0; j < 64 && (long)t[k] + j < n; j++)
+								mark[t[k] + j] = 1;
+				}
+			}
+			for (off = 0; off + 4 <= n; off++) {
+				unsigned char save[4];
+				int v;
+				if (!mark[off])
+					continue;
+				memcpy(save, in + off, 4);
+				for (v = 0; v < 4; v++) {
+					struct meter m;
+					memcpy(in + off, vals[v], 4);
+					cur_pos = off;
+					m = metered_load(in, n);
+					variants++;
+					if (m.cpu > maxcpu) {
+						maxcpu = m.cpu;
+						at = off;
+					}
+					if (m.eofreads > maxeof)
+						maxeof = m.eofreads;
+					if (m.peak > maxpeak)
+						maxpeak = m.peak;
+				}
+				memcpy(in + off, save, 4);
+			}
+			free(mark);
+			printf("fieldswept %s variants=%ld maxcpu=%.3f maxeof=%ld maxpeak=%zu at=%ld\n", argv[i], variants, maxcpu, maxeof,
+			       maxpeak, at);
+			fflush(stdout);
+			free(in);
+		}
+		return 0;
+	}
+#endif
 	fprintf(stderr, "usage: %s play <maxframes> <file>... | trunc <every> <stride_to> <stride> <spread> <file>...\n", argv[0]);
 	return 2;
 }
